@@ -818,7 +818,7 @@ def check(prop, tier, seed):
             log('%d histories did not terminate; skipping the repetitions' % hung)
         if spec.get('repeat') and not hung:
             # concurrency: repeat the par histories under several rayon pool sizes
-            reps = 3 if tier == 'quick' else 40
+            reps = 3 if tier == 'quick' else 12
             for r in range(reps):
                 for nt in ('1', '2', '16'):
                     impl_r, _, pr_r = run_all(hs, '%s.r%d.%s' % (prop, r, nt), env={'RAYON_NUM_THREADS': nt}, want_model=False)
